@@ -107,7 +107,7 @@ CLAIMED = {
          "environment), and that each loader names existing classes and the advertised scheme path.",
          "Trusted: CPython's ast parser, sa/terms.py, sa/symlen.py, sa/contracts.py, sa/props/c03.py. Assumes pickle "
          "round-trips built-in containers of bytes. Equality of concrete deserialized objects is not computed."),
- "C08": ("set comparison of consumed vs demanded configuration keys, semantic guard->raise location with dominance, symbolic length contracts",
+ "C08": ("set comparison of consumed vs demanded configuration keys, refusal contracts decided on must-facts (reach / refuse), symbolic length contracts, registries by path summaries",
          "Decides the three structural mechanisms that make a bad configuration loud: (1) every key a _parse_config reads is in "
          "the literal list given to check_param_exist (which dominates the reads) or flows only into a name registry that "
          "raises on unknown names; (2) the length guards of HmacPRF, AESxCBC, BitwiseFPEPRP and LubyRackoffPRP exist, compare "
@@ -129,7 +129,7 @@ CLAIMED = {
          "index data examine every element; ANSS16's size guard accepts every storable size (finite boundary evaluation).",
          "Trusted: CPython's ast parser, sa/terms.py, sa/symlen.py, sa/props/c01.py. Assumes deterministic collision-free "
          "primitives (C14-C16) and that DP17's random bucket choice finds room. Concrete results are never computed."),
- "C14": ("position-wise comparison of the use-def terms of Encrypt and Decrypt + guard location with dominance",
+ "C14": ("position-wise comparison of the use-def terms of Encrypt and Decrypt + refusal contracts on must-facts (entry-value facts, disjunctive path conditions)",
          "Decides that AESxCBC.Encrypt and Decrypt are structural inverses around the library cipher: iv || update || finalize "
          "on one side, split at the same symbolic offset, CBC(iv) from the first part, update + finalize, pad/unpad with the same "
          "block size, Cipher(AES(key), CBC(iv)) on both sides; that the IV is os.urandom(block size) drawn inside the call and "
@@ -137,7 +137,7 @@ CLAIMED = {
          "registry maps the three spellings. Correct decryption as values, the expansion formula and wrong-key behaviour are "
          "properties of the `cryptography` primitive and are NOT decided.",
          "Trusted: CPython's ast parser, sa/terms.py, sa/props/c14.py; the `cryptography` package implements AES-CBC/PKCS7 correctly."),
- "C15": ("state-transformer reconstruction of Feistel loop bodies and symbolic composition (straight-line use-def substitution)",
+ "C15": ("loop summaries with role assignment by unification: Feistel state transformers composed symbolically (x^y^y -> x), round order and count, refusal contracts on must-facts",
          "Decides bijectivity and inverse correctness by shape, for every key, width and round function: the encryption round "
          "is (a,b) -> (b, a xor F(key,i,b,len a)) with F independent of a; the decryption round composed with it reduces to the "
          "identity by x^y^y -> x; round orders are reversed; the default round count is even and no caller passes another; "
@@ -145,14 +145,14 @@ CLAIMED = {
          "F_i(R)) over three disjoint sub-keys; the PRP wrappers' length guards exist and dominate. A complete static argument "
          "for the bijection/inverse clauses given C18; pseudo-randomness is not examined.",
          "Trusted: CPython's ast parser, sa/straight.py, sa/props/c15.py; Bitset operations behave as fixed-width bit vectors (C18)."),
- "C16": ("state-transformer reconstruction of the expansion loops compared with the RFC 5246 recurrence; effect scan for determinism",
+ "C16": ("loop summaries unified (pattern variables for the carried state, callables canonicalised) with the RFC 5246 P_hash and counter-mode recurrences; path summaries of constructors; effect scan for determinism",
          "Decides that _tls_p_hash implements P_hash (A(1) = HMAC(key,message); per iteration res || HMAC(key, A || message), "
          "A' = HMAC(key, A); ceil(output_len/hash_len) iterations; res[:output_len]), that the hash wrapper's counter mode "
          "hashes message || I2B(c) for c = 1,2,... until long enough and truncates, that the XOF branch requests exactly "
          "output_length bytes, that HmacPRF passes its declared length and hash, that no randomness/time/state is read, and "
          "that guards and registries refuse. Equality with an independent implementation on concrete values is NOT computed.",
          "Trusted: CPython's ast parser, sa/straight.py, sa/props/c16.py; hmac/hashlib are deterministic implementations."),
- "C17": ("writer/reader slot comparison of the small codecs (ast patterns on 12 functions)",
+ "C17": ("path summaries and loop summaries of the small codecs (canonical use-def terms unified with reference recurrences; must-facts for what is established when a block / entry leaves)",
          "Decides agreement between each encoder and its decoder: partition steps/joins/right-pads with the zero byte to the "
          "block size and refuses too-small blocks, the parser reads strides from the left and stops at an all-zero entry of the "
          "entry's length (same pad byte) before collecting it, parse-by-count derives the stride as len // count; split checks "
@@ -161,7 +161,7 @@ CLAIMED = {
          "Round-trip equality over all values follows only informally and is NOT proved.",
          "Trusted: CPython's ast parser and sa/props/c17.py. These rules compare normalised statement text of very small "
          "functions; a behaviour-preserving rewrite of one of them may need the rule table to be updated (stated limitation)."),
- "C18": ("use-def comparison of each Bitset operator with the fixed-width model + float-taint scan",
+ "C18": ("per-path (value term, width term) of every Bitset operator compared with the fixed-width model; must-facts for guards; bit-position patterns; float-taint scan",
          "Decides the width bookkeeping of toolkit.bits: no float (math.log, true division) flows into a width, shift or mask - "
          "the minimal width comes from int.bit_length; and/or/xor take the longer width; invert and left shift are masked to "
          "the width; concat shifts the left operand by the right one's length and adds lengths; higher/lower k bits shift by "
@@ -169,7 +169,7 @@ CLAIMED = {
          "non-Bitset operands; the halving helpers split at (n+1)//2. Agreement with the list-of-bits model on all values is "
          "NOT decided.",
          "Trusted: CPython's ast parser, sa/straight.py, sa/props/c18.py."),
- "C19": ("index-provenance dataflow, try/except shape of the rollback, marker totality as set inclusion, file-name provenance",
+ "C19": ("index-provenance dataflow (derivation terms + must-facts about bounds), path summaries of the index->file mapping, CFG order and handler shape of the rollback, marker totality as set inclusion, file-name provenance",
          "Decides four structural preconditions of list-equivalence: every index that reaches the index->(file, offset) mapping "
          "is an element of range(*slice.indices(len)) or passed the bounds guard and was normalised (% len), identically in "
          "__getitem__ and __setitem__; slice assignment records each old item before overwriting, restores all in a catch-all "
@@ -178,7 +178,7 @@ CLAIMED = {
          "<path>_meta and <path>_<k> are opened/unlinked; deletion is zero-fill through __setitem__ over the full range with no "
          "shortcut overrides. Equivalence over operation histories is NOT decided.",
          "Trusted: CPython's ast parser, sa/cfg.py, sa/props/c19.py."),
- "C20": ("use-kind classification of the guarded attribute per method, dominance of the type check, life-cycle ordering, dirty-flag coverage",
+ "C20": ("use-kind classification of the guarded attribute per method, refusal contracts on must-facts, ordered effect sequences of path summaries (sync / close / release / shelf write-back), dirty-flag coverage",
          "Decides the structural conditions for dict-equivalence and 'closed means closed': each of the eight content "
          "operations of PickledDict and DBMDict uses (never merely rebinds) the guarded attribute and the marker binds what those "
          "uses reach; the bytes-only check dominates the store; from_dict binds a fresh copy; sync rewrites the file from the "
@@ -187,7 +187,7 @@ CLAIMED = {
          "backend together in set/delete/clear and flushes with write-back disabled. Equivalence over histories and the dbm "
          "backend are NOT decided.",
          "Trusted: CPython's ast parser, sa/cfg.py, sa/props/c20.py."),
- "C09": ("two-program conformance: set comparison of message types/fields, dominance of registrations and loaders (typestate), pairing of serialisers",
+ "C09": ("two-program conformance by patterns over use-def derivation terms of both programs (what is pickled, sent, read, dispatched, stored), must-facts at dispatch and handshake, dominance of registrations and loaders (typestate)",
          "Does NOT decide end-to-end value equality (that composes C01/C03 with this). Decides the relation between the two "
          "programs' source texts: message types emitted by one side are dispatched by the other (constants resolved, pairwise "
          "distinct, INIT handshake on both sides); each client request registers its future under the reply type before the "
@@ -228,7 +228,7 @@ def main():
                   "baseline_off_cmd": "cd /repo && /venv/bin/python -m pytest -ra -q -p no:cacheprovider --timeout=900 --continue-on-collection-errors",
                   "source_commits": [], "add_only": True},
         "engines": [{"name": "sa", "path": "sa/", "serves_properties": [c["property_id"] for c in checks],
-                     "kind_free_text": "repository-specific static analysis over Python ast: resolver, statement CFG with dominators and path enumeration, call/effect summaries, use-def term reconstruction, finite guard lattices; self-test by ast-located variants"}],
+                     "kind_free_text": "repository-specific static analysis over Python ast: resolver, normal form (unlisted helpers/constants expanded), statement CFG with dominators and path enumeration, call/effect summaries, use-def term reconstruction, must-facts (bounded DNF), path and loop summaries with unification, finite guard lattices; self-test by ast-located variants and archived independent patches"}],
         "checks": checks,
         "not_applicable": [{"property_id": i, "reason": NA.get(i, NA_REASON)} for i in ids if i not in CLAIMED],
         "notes": "All checks are static (ast-based, nothing executed). Exit 0 = all rule instances hold or only listed known findings; 1 = VIOLATION lines; 2 = ANALYSIS-ERROR (analysis cannot see what it needs). Known findings: known_findings.json. See DESIGN.md.",
